@@ -1,6 +1,7 @@
 (* Props/C12.v — property theorems only; proofs in Proofs/C12Nonce.v, Proofs/FrameBase.v. *)
 From Coq Require Import List NArith.
 From Cedar Require Import Lib.Bytes Lib.Sym gen.Consts Model.Frame Model.FrameSpec Proofs.FrameBase Proofs.C12Nonce Proofs.C12Rekey.
+From Cedar Require Model.File.
 Import ListNotations.
 Local Open Scope N_scope.
 
@@ -107,3 +108,12 @@ Theorem C12_rekey_same_iv_repeats :
     exists kn, key_nonces [f1] = [kn] /\ key_nonces [f2] = [kn].
 Proof. exact rekey_same_iv_repeats. Qed.
 Print Assumptions C12_rekey_same_iv_repeats.
+
+(* File transfer (PutFile) is covered: its frames carry pairwise distinct key/nonce pairs and
+   the counter neither decreases nor passes the guard. *)
+Theorem C12_file_nonce_unique :
+  forall (s : stream) (d : bytes) (s' : stream) (e : N) (fs : list frame),
+    enc_ctr s <= CounterGuard -> Model.File.put_file s d = (s', e, fs) ->
+    NoDup (key_nonces fs) /\ enc_ctr s <= enc_ctr s' /\ enc_ctr s' <= CounterGuard.
+Proof. exact file_nonce_unique. Qed.
+Print Assumptions C12_file_nonce_unique.
